@@ -246,6 +246,7 @@ func readLeft(conn io.Reader, alt bool) []byte {
 }
 
 type srvRun struct {
+	raw         string // every byte written in clear, write by write (incl. the free-text Message header)
 	result      string
 	established bool
 	status      int
@@ -282,6 +283,7 @@ func runServerOnce(sec bool, certMode, peer string, chunks [][]byte, alt bool) (
 	for _, w := range conn.writes {
 		ws = append(ws, respText(w))
 		last = statusOf(w)
+		r.raw += hexs(w) + "|"
 	}
 	wtxt := " w=" + strings.Join(ws, "|")
 	if err != nil || sc == nil {
@@ -311,20 +313,30 @@ func runServerOnce(sec bool, certMode, peer string, chunks [][]byte, alt bool) (
 }
 
 func (hsServer) Exec(op string) (string, string, string, bool) {
+	if strings.HasPrefix(op, "par ") {
+		return hsPar("hs-server", hsServerSingle, op)
+	}
+	res, mon, class, nt, _ := hsServerSingle(op)
+	return res, mon, class, nt
+}
+
+// hsServerSingle runs one connection's op; `detail` is everything the server wrote in clear under every
+// segmentation, byte for byte (the canonical result leaves the free-text Message header out).
+func hsServerSingle(op string) (string, string, string, bool, string) {
 	t := strings.Split(op, " ")
 	if len(t) != 5 {
-		return "bad-op", "", "bad", false
+		return "bad-op", "", "bad", false, ""
 	}
 	data, err := parseScript(t[3])
 	if err != nil {
-		return "bad-op", "", "bad", false
+		return "bad-op", "", "bad", false, ""
 	}
 	segs := strings.Split(t[4], "/")
 	var runs []srvRun
 	for i, sg := range segs {
 		chunks, err := applySeg(sg, data)
 		if err != nil {
-			return "bad-op", "", "bad", false
+			return "bad-op", "", "bad", false, ""
 		}
 		runs = append(runs, runServerOnce(t[0] == "1", t[1], t[2], chunks, i%2 == 1))
 	}
@@ -376,7 +388,11 @@ func (hsServer) Exec(op string) (string, string, string, bool) {
 	if r0.established {
 		class = "established-" + r0.tech
 	}
-	return res, mon, class, r0.established
+	detail := ""
+	for _, r := range runs {
+		detail += r.raw + "/"
+	}
+	return res, mon, class, r0.established, detail
 }
 
 // independentServerCheck is the monitor's own, deliberately simple reading of "well-formed announce + matching
@@ -794,6 +810,8 @@ func (hsServer) Gen(r *Rand, tier string, emit func(string)) {
 		}
 		send(strconv.Itoa(i%2), certs[i%len(certs)], "eof", base)
 	}
+	// 7. several peers at the same moment (c06_par.go)
+	hsServerParGen(r, tier, emit)
 }
 
 func shuffle(r *Rand, h [][2]string) [][2]string {
